@@ -1,5 +1,6 @@
 import Smtb.Circuit.Trace
 import Smtb.Circuit.Main
+import Smtb.Circuit.TraceHarness
 /-! `driver trace …` : print the API-call trace of a gadget / circuit model -/
 namespace Driver
 open Smtb Smtb.Circuit
@@ -12,36 +13,23 @@ def chunks {α} (l : List α) (size count : Nat) : List (List α) :=
 
 def ret (vs : List TV) : TraceM Unit := TraceM.emit ("ret" ++ TraceM.tvList vs)
 
+/-- the programs whose traces are printed.  The gadget and circuit targets are the definitions of
+`Smtb/Circuit/TraceHarness.lean`, i.e. exactly the programs `Smtb/Proofs/TraceSound.lean` proves
+sound and complete with respect to the Sat semantics (the result is discarded here). -/
 def traceProg (name : String) (a : List Nat) : Option (TraceM Unit) :=
-  let h2 : TV → TV → TraceM TV := Poseidon.poseidon2
+  open Smtb.TraceHarness in
   match name, a with
-  | "ProofRound", [] => some do
-      let d ← input1; let h ← input1; let s ← input1
-      let r ← proofRound h2 d h s; ret [r]
-  | "VerifyProof", [d] => some do
-      let prf ← inputs (d+1); let path ← inputs d
-      let r ← verifyProof h2 (prf.headD (.c 0)) prf.tail path; ret [r]
-  | "InsertionRound", [d] => some do
-      let idx ← input1; let item ← input1; let prev ← input1; let prf ← inputs d
-      let r ← insertionRound h2 d idx item prev prf; ret [r]
-  | "InsertionProof", [d, b] => some do
-      let start ← input1; let pre ← input1; let ids ← inputs b; let prfs ← inputs (b*d)
-      let r ← insertionProof h2 d start pre ids (chunks prfs d b); ret [r]
-  | "DeletionRound", [d] => some do
-      let root ← input1; let idx ← input1; let item ← input1; let prf ← inputs d
-      let r ← deletionRound h2 d root idx item prf; ret [r]
-  | "DeletionProof", [d, b] => some do
-      let idxs ← inputs b; let pre ← input1; let ids ← inputs b; let prfs ← inputs (b*d)
-      let r ← deletionProof h2 d idxs pre ids (chunks prfs d b); ret [r]
-  | "ReducedModRCheck", [p, n] => some do
-      let inp ← inputs n
-      reducedModRCheck p inp; ret []
-  | "ToReducedBigEndian", [p, n] => some do
-      let v ← input1
-      let r ← toReducedBigEndian p v n; ret r
-  | "FromBinaryBigEndian", [n] => some do
-      let inp ← inputs n
-      let r ← fromBinaryBigEndian inp; ret [r]
+  | "ProofRound", [] => some (do let _ ← traceProofRound)
+  | "VerifyProof", [d] => some (do let _ ← traceVerifyProof d)
+  | "InsertionRound", [d] => some (do let _ ← traceInsertionRound d)
+  | "InsertionProof", [d, b] => some (do let _ ← traceInsertionProof d b)
+  | "DeletionRound", [d] => some (do let _ ← traceDeletionRound d)
+  | "DeletionProof", [d, b] => some (do let _ ← traceDeletionProof d b)
+  | "ReducedModRCheck", [p, n] => some (traceReducedModRCheck p n)
+  | "ToReducedBigEndian", [p, n] => some (do let _ ← traceToReducedBigEndian p n)
+  | "FromBinaryBigEndian", [n] => some (do let _ ← traceFromBinaryBigEndian n)
+  | "Insertion", [p, d, b] => some (traceInsertion p d b)
+  | "Deletion", [p, d, b] => some (traceDeletion p d b)
   | "Poseidon1", [] => some do
       let a ← input1
       let r ← Poseidon.poseidon1 a; ret [r]
@@ -51,19 +39,6 @@ def traceProg (name : String) (a : List Nat) : Option (TraceM Unit) :=
   | "Keccak", [dom, n] => some do
       let inp ← inputs n
       let r ← Keccak.keccakGadget dom inp; ret r
-  | "Insertion", [p, d, b] => some do
-      let ih ← input1; let start ← input1; let pre ← input1; let post ← input1
-      let ids ← inputs b; let prfs ← inputs (b*d)
-      insertionCircuit p d ih start pre post ids (chunks prfs d b); ret []
-  | "Deletion", [p, d, b] => some do
-      if !deletionDepthOk d then
-        -- `Define` returns the error before touching the API; the harness allocates inputs first
-        let _ ← inputs (4 + 2*b + b*d)
-        TraceM.emit "error max depth supported is 31"; ret []
-      else
-      let ih ← input1; let idxs ← inputs b; let pre ← input1; let post ← input1
-      let ids ← inputs b; let prfs ← inputs (b*d)
-      deletionCircuit p d ih idxs pre post ids (chunks prfs d b); ret []
   | _, _ => none
 
 def traceCmd (args : List String) : IO UInt32 := do
